@@ -27,9 +27,6 @@ def obligations(tier):
             if not th and n == 4 and s == 4: continue
             obs.append(Ob(id=f'maxdis_fast/n{n}s{s}', harness='C17/selection.c', tus=T, defs={'HP_WHICH': 1, 'HP_N': n, 'HP_S': s, 'HP_METRIC': 1, 'HP_T': 1}, engine='bits', unwind=max(n * (n - 1) // 2, n) + 4, timeout=to,
                           clause='max-min selection: count, distinct, in range, each element maximises the minimum distance', remove=RM1, stubs=('sym_pthread_sync.c', 'memmove_typed.c', 'sym_bits_env.c'), object_bits=11))
-    for (n, sel) in ([(3, 2), (3, 3)] if not th else [(3, 2), (3, 3), (4, 3), (4, 4)]):
-        obs.append(Ob(id=f'maxdis_agree/n{n}s{sel}', harness='C17/agree.c', tus=T, defs={'HP_N': n, 'HP_S': sel, 'HP_METRIC': 0}, engine='bits', unwind=max(n * (n - 1) // 2, n) + 4, timeout=to,
-                      clause='MaxDis and MaxDis_Fast return the same sequence', remove=RM1 + ('CalculateDistance',), stubs=('sym_pthread_sync.c', 'memmove_typed.c', 'sym_bits_env.c'), object_bits=11))
     for which, nm in ((0, 'maxdis'), (1, 'maxdis_fast')):
         for (n, c) in ([(3, 1), (3, 2), (4, 1)] if not th else [(3, 1), (3, 2), (4, 1), (4, 2), (5, 1)]):
           for e in range(n):
